@@ -243,7 +243,7 @@ def run_shard(spec):
             continue
         case = gen_case(core.rng(PID, spec["seed"], spec["shard"], i), spec)
         problems, run = execute(case, result)
-        result.case({"payloads": len(case["generations"][0]["payloads"]), "services": len(case["generations"][0]["services"]), "direction": case["meta"]["direction"]},
+        result.case(common.sample(case, run, **{"payloads": len(case["generations"][0]["payloads"]), "services": len(case["generations"][0]["services"]), "direction": case["meta"]["direction"]}),
                     nontrivial=len(run.of("start")) >= 6, key=common.shape(case))
         for what, mech in problems:
             clean = {k: v for k, v in spec.items() if k != "only_case"}
